@@ -86,3 +86,63 @@ def auth_check(t, f, effect_sites, r, what):
         if e.bb in unauth_reach:
             # allowed if the effect lies behind a call boundary that authenticates: not applicable inside this function
             r.bad(f"{f.path}|{what(e)}", e, f"{what(e)} reachable without crossing an authenticating edge (unauthenticated ConnectionRequest kind or failed token)")
+
+
+def packet_variant_edges(t, f, dec):
+    """for the packet returned by decode site `dec`: list of (edge, set of packet variant names possible on that edge), from switches on the
+    packet's discriminant and from `matches!(packet, ..)` booleans materialised behind such switches"""
+    me = norm(dec.fn.call_origin(dec.node))
+    names = t.variants_of(PKT)
+    allv = set(names.values())
+    out = []
+    for br in t.branches(f):
+        if br["kind"] != "discr": continue
+        if not contains(norm(br["on"]), lambda x: x == me): continue
+        if not re.search(r"as (Continue|Ok)\.0\.1$", fmt(br["on"])): continue
+        listed = set()
+        for v, tgt in br["targets"].items():
+            out.append(((br["bb"], tgt), {names.get(v)})); listed.add(names.get(v))
+        out.append(((br["bb"], br["otherwise"]), allv - listed))
+    base = list(out)
+    for br in t.branches(f):
+        if br["kind"] != "bool": continue
+        raw = br["raw"]
+        if not (isinstance(raw, tuple) and raw[0] == "phi" and all(isinstance(x, tuple) and x[0] == "const" for x in raw[2])): continue
+        by_val = {}
+        for bb_d, _, d in f.defs().get(raw[1], []):
+            if d["k"] == "assign" and d["rv"]["k"] == "use" and d["rv"]["op"]["k"] == "const": by_val.setdefault(d["rv"]["op"]["val"], []).append(bb_d)
+        for val, blocks in by_val.items():
+            vs, known = set(), True
+            for b_ in blocks:
+                doms = [s_ for e, s_ in base if f.edge_dominates(e[0], e[1], b_)]
+                if not doms: known = False; break
+                cur = set(allv)
+                for s_ in doms: cur &= s_
+                vs |= cur
+            if known: out.append((br["t_edge"] if val == 1 else br["f_edge"], vs))
+    return out
+
+
+def variants_at(t, f, dec, bb):
+    """packet variants possible when block bb executes (intersection over the dominating variant edges)"""
+    cur = set(t.variants_of(PKT).values())
+    for e, vs in packet_variant_edges(t, f, dec):
+        if f.edge_dominates(e[0], e[1], bb): cur &= vs
+    return cur
+
+
+def replay_protected_kinds(t):
+    """packet kinds for which PacketType::apply_replay_protection() returns true (read from the code)"""
+    f = t.fn("PacketType::apply_replay_protection")
+    names = t.variants_of("renetcode::packet::PacketType")
+    covered = set()
+    def leads_true(bb):
+        for s in f.blocks[bb]["stmts"]:
+            if s["k"] == "assign" and s["place"]["local"] == 0 and s["rv"]["k"] == "use" and s["rv"]["op"]["k"] == "const": return s["rv"]["op"]["val"] == 1
+        return None
+    for br in t.branches(f):
+        if br["kind"] == "discr":
+            for v, tgt in br["targets"].items():
+                if leads_true(tgt): covered.add(names.get(v))
+            if leads_true(br["otherwise"]): covered |= {n for v, n in names.items() if v not in br["targets"]}
+    return covered
